@@ -74,6 +74,7 @@ package discovery
 //@   // a zombie is resurrected only by an update that could also be applied: consistent fields, then the owner's signature (finding F20)
 //@   site call MarkEdgeLive: assert ret(VerifyChannelUpdateSignature) == nil && arg(2) == scid && ret(ValidateChannelUpdateFields) == nil
 //@   site call ValidateChannelUpdateFields: assert arg(1) == msg
+//@   ensures result == nil ==> called(VerifyChannelUpdateSignature) && ret(VerifyChannelUpdateSignature) == nil && called(MarkEdgeLive)
 //@
 //@ // ---- announcement_signatures: the proof assembled from our half and the peer's half is stored, and the channel announcement handed
 //@ // ---- on for broadcast, only after the FULL announcement carrying all four signatures was validated - whichever half arrived last
